@@ -98,3 +98,10 @@ func coverAttempt(name string) int {
 	coverCount[name]++
 	return coverCount[name]
 }
+
+// coverUndecided: the number of undecided attempts made so far for a cover group.
+func coverUndecided(name string) int {
+	coverMu.Lock()
+	defer coverMu.Unlock()
+	return coverCount[name]
+}
